@@ -40,7 +40,28 @@ def gcda_sequences(rng, singles, merged):
             ds = [d1, d1]
             ds.insert(pos, m)
             seqs.append(("mismatch:" + what, ds))
+    # the file stamp (checksum word) of the gcda replaced by boundary values, 0 included: rejected unless equal to the gcno's
+    stamp = G.words(d1, d1[:4] == b"adcg")[2]
+    for v in (0, 1, 2**31, 2**32 - 1):
+        if v != stamp:
+            ds = [d1]
+            ds.insert(rng.randrange(0, 2), G.put_word(d1, 2, v))
+            seqs.append(("mismatch:stamp=%d" % v, ds if rng.random() < 0.5 else [G.put_word(d1, 2, v)]))
     return seqs
+
+
+def stamp_zero_source(src):
+    """the same gcno with its file stamp set to 0: the original gcda (non-zero stamp) must be rejected, the gcda with
+    stamp 0 (equal stamps) accepted"""
+    if not src["singles"]:
+        return None
+    g = src["gcno"]
+    if G.words(g, g[:4] == b"oncg")[2] == 0:
+        return None
+    g0 = G.put_word(g, 2, 0)
+    return {"label": src["label"] + "+stamp0", "gcno": g0, "singles": [G.put_word(d, 2, 0) for d in src["singles"]],
+            "merged": None, "extra_seqs": [("mismatch:gcno_stamp=0", [src["singles"][0]]),
+                                           ("mismatch:gcno_stamp=0", [G.put_word(src["singles"][0], 2, 0), src["singles"][0]])]}
 
 
 def synth_sources(rng, n):
@@ -76,13 +97,18 @@ def clang_sources(chk, n):
         files = cgen.program(chk.rng)
         d = os.path.join(sc, "p%d" % i)
         try:
-            gcno = cgen.build(d, files)
+            version = cgen.VERSIONS[(i + i // len(cgen.VERSIONS)) % len(cgen.VERSIONS)]
+            gcno = cgen.build(d, files, version=version)
             args = cgen.arg_sets(chk.rng, chk.rng.randrange(1, 4))
             singles, merged = cgen.profiles(d, args)
         except Exception as ex:          # a generated program that does not compile or hangs is skipped, and counted
             chk.extra.setdefault("skipped_programs", []).append(str(ex)[:200])
             continue
-        out.append({"label": "clang%d" % i, "gcno": gcno, "singles": singles, "merged": merged, "files": files, "args": args})
+        out.append({"label": "clang%d" % i, "gcno": gcno, "singles": singles, "merged": merged, "files": files, "args": args, "version": version})
+        if i % 2 == 1:
+            # big-endian twin of the same files (every 32-bit word byte-swapped): same laws, same correspondence
+            out.append({"label": "clang%d-be" % i, "gcno": cgen.to_big_endian_gcno(gcno), "singles": [cgen.to_big_endian_gcda(x) for x in singles],
+                        "merged": cgen.to_big_endian_gcda(merged) if merged is not None else None, "files": files, "args": args, "version": version})
     return out
 
 
@@ -91,6 +117,9 @@ def fixture_sources():
     for pair in G.SMALL + G.GCC:
         g, d = G.fixture(pair)
         out.append({"label": pair[0], "gcno": g, "singles": [d], "merged": None})
+    for pair in G.SMALL:                 # big-endian twins of the LLVM fixtures
+        g, d = G.fixture(pair)
+        out.append({"label": pair[0] + "-be", "gcno": cgen.to_big_endian_gcno(g), "singles": [cgen.to_big_endian_gcda(d)], "merged": None})
     return out
 
 
@@ -206,8 +235,10 @@ def run(chk):
     sources = fixture_sources() + synth_sources(chk.rng, 30 if quick else 400) + clang_sources(chk, 8 if quick else 120)
     dist = {k: 0 for k in ("no_gcda", "mismatch", "structure", "copies", "copies_overflow", "perm_groups", "merged", "executed_iff", "model_cases", "model_outoffuel")}
     cases, index = [], []
+    derived = [stamp_zero_source(s_) for s_ in sources if not s_["label"].startswith("synth")]
+    sources += [d_ for d_ in derived[:len(G.SMALL + G.GCC) + 3 + 4] if d_ is not None]
     for si, src in enumerate(sources):
-        seqs = gcda_sequences(chk.rng, src["singles"], src["merged"])
+        seqs = gcda_sequences(chk.rng, src["singles"], src["merged"]) + src.get("extra_seqs", [])
         src["seqs"] = seqs
         for qi, (law, ds) in enumerate(seqs):
             cases.append(G.case(src["gcno"], ds, True))
@@ -223,7 +254,7 @@ def run(chk):
     # correspondence with the model on the same bytes (gcno up to 12 kB to keep vm_compute cheap)
     sel = [i for i, (si, qi) in enumerate(index) if len(sources[si]["gcno"]) <= 12000]
     if quick:
-        keep = [i for i in sel if sources[index[i][0]]["seqs"][index[i][1]][0] in ("none", "one", "copies2", "mismatch:checksum", "mismatch:fn_checksum", "merged")]
+        keep = [i for i in sel if sources[index[i][0]]["seqs"][index[i][1]][0] in ("none", "one", "copies2", "mismatch:checksum", "mismatch:fn_checksum", "merged", "mismatch:stamp=0", "mismatch:gcno_stamp=0")]
         rest = [i for i in sel if i not in set(keep)]
         sel = keep + chk.rng.sample(rest, min(len(rest), 60))
     mcases = [cases[i] for i in sel]
@@ -254,10 +285,10 @@ def run(chk):
     chk.extra["sources"] = {"fixtures": len(G.SMALL + G.GCC), "synthesised": sum(1 for s in sources if s["label"].startswith("synth")),
                             "clang_programs": sum(1 for s in sources if s["label"].startswith("clang")), "gcda_sequences": len(cases)}
     chk.sample({"source": sources[-1]["label"], "sequences": [l for l, _ in sources[-1]["seqs"]]})
-    chk.cov["rule"] = ("gcno sources: the 8 small checked-in fixtures (LLVM 4.2, GCC 6-10), synthesised CFGs (parallel arcs, fake/tree flags, multi-block lines, "
-                       "counters from a boundary pool up to 2^63) in versions *204 and *804, and programs generated from a seeded C grammar compiled with clang-14 --coverage and "
+    chk.cov["rule"] = ("gcno sources: the 8 small checked-in fixtures (LLVM 4.2, GCC 6-10) and big-endian twins of the three LLVM ones, synthesised CFGs (parallel arcs, fake/tree flags, multi-block lines, "
+                       "counters from a boundary pool up to 2^63) in versions *204 and *804, and programs generated from a seeded C grammar compiled with clang-14 --coverage (gcov format version rotating over 408*, 407*, 402*, 409*, 406*, 404*; every second program also as a big-endian twin) and "
                        "run 1-3 times (one gcda per run plus the runtime-merged one); per source the gcda lists: none, one, 2 and 3 copies, permutations with repetitions, merged, "
-                       "and lists containing a gcda with a flipped version / checksum / function-checksum word at a random position; every law of the property is evaluated on "
+                       "and lists containing a gcda with a flipped version / checksum / function-checksum word at a random position, the gcda stamp word replaced by 0, 1, 2^31, 2^32-1, and (for the fixtures and some programs) the gcno stamp set to 0 against the original gcda (rejected) and against a gcda with stamp 0 (accepted); every law of the property is evaluated on "
                        "Gcno::compute's results, and the Gallina model is run on the same bytes (full result equality); non-trivial = k-copies cases with a non-zero count and "
                        "permutation groups with at least two orders")
     chk.cov["trusted_base"] = ["Coq kernel; vm_compute for the correspondence", "impl_run harness (hex transport, sorting of the result vector)",
